@@ -20,15 +20,30 @@ for ID in $IDS; do
   fi
   SUITE=$(cd "$W" && go test -vet=off -count=1 ./... 2>&1 | grep -c "^FAIL\|^--- FAIL")
   CHECKS=$(python3 -c "import json;print(' '.join(json.load(open('$D/meta.json'))['checks']))")
-  RES=""
+  RESF=$(mktemp /tmp/seedres-XXXX)
   for P in $CHECKS; do
     OUT=$(VERIF_REPO="$W" VERIF_EVIDENCE_DIR="$W/.evidence" ./check "$P" 2>&1); RC=$?
-    V=$(echo "$OUT" | grep -A1 '^VIOLATION' | grep -v '^VIOLATION\|^--' | head -1 | sed 's/"/\\"/g' | cut -c1-240)
-    NF=$(echo "$OUT" | grep '^VIOLATION' | head -1 | grep -c no-failing-input-found)
-    RES="$RES{\"check\":\"$P\",\"exit\":$RC,\"first_violation\":\"$V\",\"no_failing_input\":$NF},"
-    echo "$ID: $P exit=$RC $V" | cut -c1-200
+    echo "$OUT" > "$RESF.$P.out"
+    echo "$P $RC" >> "$RESF"
+    echo "$ID: $P exit=$RC $(echo "$OUT" | grep -A1 '^VIOLATION' | grep -v '^VIOLATION\|^--' | head -1)" | cut -c1-200
   done
-  echo "{\"seed_id\":\"$ID\",\"applies\":true,\"head\":\"$(git -C /repo rev-parse --short HEAD)\",\"suite_failures\":$SUITE,\"results\":[${RES%,}]}" > "$D/result.json"
+  python3 - "$D/result.json" "$ID" "$(git -C /repo rev-parse --short HEAD)" "$SUITE" "$RESF" <<'PY'
+import json,sys
+out,sid,head,suite,resf=sys.argv[1:6]
+results=[]
+for line in open(resf):
+    p,rc=line.split()
+    txt=open(resf+"."+p+".out",errors="replace").read().split("\n")
+    first="";nf=0
+    for i,l in enumerate(txt):
+        if l.startswith("VIOLATION"):
+            nf=1 if "no-failing-input-found" in l else 0
+            first=(txt[i+1].strip() if i+1<len(txt) else "")[:240]
+            break
+    results.append({"check":p,"exit":int(rc),"first_violation":first,"no_failing_input":nf})
+json.dump({"seed_id":sid,"applies":True,"head":head,"suite_failures":int(suite),"results":results},open(out,"w"),indent=1)
+PY
+  rm -f "$RESF" "$RESF".*.out
   flock /tmp/.seedrun-git.lock git -C /repo worktree remove --force "$W"
 done
 bin/extract /repo lean/PebblesVerif/Gen >/dev/null 2>&1
